@@ -136,7 +136,9 @@ def parse_vspec(path):
                     if m.group(1) != "R5":
                         raise SystemExit("%s:%d: optional count only allowed for R5" % (path, ln))
                     want = -int(want[:-1])
-                cur_item.rewrites.append((m.group(1), int(want), m.group(3).replace('\\"', '"'), m.group(4).replace('\\"', '"'), ln))
+                # `<NL>` stands for a line break (a rewrite may span lines; it must keep their number)
+                cur_item.rewrites.append((m.group(1), int(want), m.group(3).replace('\\"', '"').replace("<NL>", "\n"),
+                                          m.group(4).replace('\\"', '"').replace("<NL>", "\n"), ln))
             elif key == "external_body":
                 cur_item.external_body = True
             elif key == "pub_fields":
@@ -178,6 +180,16 @@ class Out:
         for l, ln in payload:
             self.lines.append(l)
             self.origin.append(("contract", file, ln, fn))
+
+
+def _clause_tags(blocks):
+    tags = {}
+    for b in blocks:
+        for l, _ln in b.payload:
+            if "//~" in l:
+                for pid in re.findall(r"C\d{2,3}", l.split("//~", 1)[1]):
+                    tags[pid] = tags.get(pid, 0) + 1
+    return tags
 
 
 def _visibility_rewrite(text):
@@ -497,7 +509,9 @@ def emit_item(spec, repo, out, stats, vspec_path, cache):
     out.origin.append(cur_origin or ("repo", spec.file, None, fn))
     stats["items"].append({"fn": fn, "kind": spec.kind, "file": spec.file, "line": item.line,
                            "props": spec.props, "external_body": spec.external_body,
-                           "contract_lines": sum(len(b.payload) for b in spec.blocks)})
+                           "contract_lines": sum(len(b.payload) for b in spec.blocks),
+                           # clause-level property tags (`//~ C03 C15`): property -> number of tagged lines
+                           "clause_tags": _clause_tags(spec.blocks)})
 
 
 def generate(unit_dir, repo, out_path):
